@@ -454,7 +454,7 @@ def gen_read(rng, tree, systems, hot=None, pool=None, traced_bias=False):
         # ... after which the reader may work on a copy of what it read (a reader's
         # own arithmetic: nobody else's reads may notice)
         return ["sread", sysid, pick(rng, ["a", "b"]), date, pick(rng, [None, None, "copy_rates", "copy_bracket", "copy_thresholds", "new_rates"])]
-    kind = weighted(rng, [("str", 3), ("enum", 2), ("enumarray", 2), ("nested", 2), ("date", 4), ("flags", 2.5)])
+    kind = weighted(rng, [("str", 3), ("enum", 2), ("enumarray", 2), ("nested", 2), ("date", 4), ("flags", 2.5), ("rank", 2.5)])
     route = pick(rng, ["a", "a", "c", "d"])
     if kind == "date":
         keys = [PW.rand_date(rng, 2006, 2021) for _ in range(rng.randint(1, 5))]
@@ -467,7 +467,7 @@ def gen_read(rng, tree, systems, hot=None, pool=None, traced_bias=False):
         # flags other than the first may be undefined at the date: the read must then fail
         keys = ["f0"] * chance(rng, 0.6) + [pick(rng, ["f0", "f1", "f2"]) for _ in range(rng.randint(1, 4))]
         return ["vread", sysid, pick(rng, ["a", "a", "c"]), "flags", keys, date]
-    group = "nz" if kind == "nested" else "zones"
+    group = "nz" if kind == "nested" else "ranks" if kind == "rank" else "zones"
     names = sorted(tree[group]["children"])
     keys = [pick(rng, names) for _ in range(rng.randint(1, 5))]
     return ["vread", sysid, route, kind, keys, date]
@@ -481,7 +481,7 @@ def c07_generate(seed: int, tier: str) -> dict:
     tree = PW.gen_tree(wr, p_inf=p_inf)
     alt = {"T1": PW.gen_tree(wr, p_inf=p_inf)}
     # the alternative tree keeps the vectorisable groups' shapes
-    for g in ("zones", "nz", "asof"):
+    for g in ("zones", "nz", "asof", "ranks"):
         alt["T1"][g] = copy.deepcopy(tree[g])
         for leaf in _leaves_of(alt["T1"][g]):
             leaf["values"] = [[d, (round(v + 1.5, 2) if isinstance(v, float) else v)] for d, v in leaf["values"]]
@@ -929,7 +929,7 @@ def run_c07(scn) -> Result:
                 if sid not in systems:
                     continue
                 system = systems[sid]
-                group = {"date": "asof", "nested": "nz", "flags": "flags"}.get(vkind, "zones")
+                group = {"date": "asof", "nested": "nz", "flags": "flags", "rank": "ranks"}.get(vkind, "zones")
                 gnode = getattr(system.parameters, group, None)
                 if gnode is None:
                     continue
@@ -950,7 +950,15 @@ def run_c07(scn) -> Result:
                         key = numpy.array(keys)
                     else:
                         want = [PW.read_direct(gnode, (k,), date) for k in keys]
-                        if vkind in ("str", "flags"):
+                        if vkind == "rank":
+                            # numbers as integers, as an object array of text (what a str
+                            # variable holds), or as a text array
+                            import zlib
+
+                            form = zlib.crc32(repr(do).encode()) % 3
+                            key = numpy.array([int(k) for k in keys]) if form == 0 else numpy.array(keys, dtype=object) if form == 1 else numpy.array(keys)
+                            res.count(f"probe:rank_keys_form_{form}")
+                        elif vkind in ("str", "flags"):
                             key = numpy.array(keys)
                         elif vkind == "enum":
                             key = numpy.array([PW.Zone[k] for k in keys], dtype=object)
